@@ -594,7 +594,11 @@ class _Gen(object):
             elif form == 6:
                 F.add('attr_store'); self.uses_obj = True; self.emit(ind, 'o.v = %s' % self.iexpr(1))
             else:
-                F.add('global'); self.emit(ind, 'G = G + %s' % self.iexpr(1)); self.uses_global = True
+                F.add('global'); self.uses_global = True
+                if r.random() < 0.6:
+                    self.emit(ind, 'G = G + %s' % self.iexpr(1))
+                else:
+                    F.add('global_write_only'); self.emit(ind, 'G = %s' % self.iexpr(1))
             return
         if c < 0.46:
             F.add('if')
